@@ -22,9 +22,9 @@ def run(tier):
     spec = os.path.join(ROOT, "specs", "logformat")
     exe = build_driver("logformat", os.path.join(ROOT, "harness", "logformat_driver.cpp"), "asan",
                        lib_subdirs=("log", "common", "format", "prog_args", "appl"))
-    all_seqs = []
     for suffix, must in SLICES:
         cfg = "MCLogFormat_%s%s.cfg" % (tier, suffix)
+        tag = "R" + (suffix or "_kinds")
         r, edges = c.model(spec, "MCLogFormat", cfg)
         if r.violation:
             continue
@@ -33,15 +33,14 @@ def run(tier):
         if missing:
             raise MachineryError("vacuous model %s: actions never taken: %s" % (cfg, missing))
         seqs, nedges, nstates, _ = cover(edges)
-        all_seqs.extend(seqs)
         c.notes.append("%s: %d distinct edges over %d states covered by %d replay sequences; per action: %s" % (
             cfg, nedges, nstates, len(seqs), dict(sorted(taken.items()))))
-    script = os.path.join(c.wd, "script.ndjson")
-    write_script(all_seqs, script)
-    tr = os.path.join(c.wd, "replay.ndjson")
-    c.drive(exe, ["--script", script], tr, "R", timeout=600)
-    c.validate(spec, "TraceLogFormat", "TraceLogFormat.cfg", tr, "R")
-    cases, ops = (250, 40) if tier == "quick" else (12000, 60)
+        script = os.path.join(c.wd, "script%s.ndjson" % suffix)
+        write_script(seqs, script)
+        tr = os.path.join(c.wd, "replay%s.ndjson" % suffix)
+        c.drive(exe, ["--script", script], tr, tag, timeout=600)
+        c.validate(spec, "TraceLogFormat", "TraceLogFormat.cfg", tr, tag)
+    cases, ops = (250, 40) if tier == "quick" else (6000, 50)
     tr2 = os.path.join(c.wd, "random.ndjson")
     c.drive(exe, ["--random", "--seed", SEED, "--cases", cases, "--ops", ops], tr2, "T", timeout=900)
     c.validate(spec, "TraceLogFormat", "TraceLogFormat.cfg", tr2, "T")
